@@ -10,35 +10,11 @@ Variable O : oracle.
 Notation FX := (FA O).
 Notation fqty := (qty FX).
 
-Inductive sop :=
-  | SRun (dt T : fqty) (ctl : option (list (@rule FX))) (stop : option (@stopcond FX))
-  | SReset | SNewSolver
-  | SSetInit (pos spd : fqty)
-  | SSetPwm (x : float).
-
 Definition fu := (float * string)%type.
 Record row := { r_time : fu; r_pos : list fu; r_spd : list fu; r_acc : list fu; r_tq : list fu; r_dtq : list fu; r_ltq : list fu; r_pwm : float; r_cur : option fu }.
 Inductive expect := EHist (rows : list row) (locked : bool) | EErr (e : exn).
 
-Record scase := { k_chain : @chain FX; k_load : @loadexpr FX; k_pos0 : fqty; k_spd0 : fqty; k_ops : list sop; k_expect : expect }.
-
-Definition step_op (c : @chain FX) (l : @loadexpr FX) (st : @sys FX) (o : sop) : res (@sys FX) :=
-  match o with
-  | SRun dt T ctl stop => run c (eval_load l) ctl stop dt T st
-  | SReset => reset st
-  | SNewSolver => Ok (new_solver st)
-  | SSetInit p w =>
-      let v := y_live st in
-      Ok {| y_hist := y_hist st; y_locked := y_locked st;
-            y_live := {| v_pos_last := p; v_spd_last := w; v_acc_last := v_acc_last v; v_tq0 := v_tq0 v; v_cur := v_cur v; v_pwm := v_pwm v |} |}
-  | SSetPwm x =>
-      let v := y_live st in
-      p <- @set_pwm FX x ;;
-      Ok {| y_hist := y_hist st; y_locked := y_locked st;
-            y_live := {| v_pos_last := v_pos_last v; v_spd_last := v_spd_last v; v_acc_last := v_acc_last v; v_tq0 := v_tq0 v; v_cur := v_cur v; v_pwm := p |} |}
-  end.
-Fixpoint exec (c : @chain FX) (l : @loadexpr FX) (ops : list sop) (st : @sys FX) : res (@sys FX) :=
-  match ops with [] => Ok st | o :: ops' => st1 <- step_op c l st o ;; exec c l ops' st1 end.
+Record scase := { k_chain : @chain FX; k_load : @loadexpr FX; k_pos0 : fqty; k_spd0 : fqty; k_ops : list (@sop FX); k_expect : expect }.
 
 Definition fu_eqb (q : fqty) (x : fu) : bool := fbits_eq (qv q) (fst x) && String.eqb (qu q) (snd x).
 Fixpoint fus_eqb (l : list fqty) (x : list fu) : bool :=
@@ -61,7 +37,7 @@ Fixpoint rows_code (h : list (fqty * @snap FX)) (rs : list row) (i : N) : N * N 
   | _, _ => (11, i)%N
   end.
 Definition case_code (k : scase) : N * N :=
-  let r := exec (k_chain k) (k_load k) (k_ops k) (initial (k_pos0 k) (k_spd0 k)) in
+  let r := exec (k_chain k) (eval_load (k_load k)) (k_ops k) (initial (k_pos0 k) (k_spd0 k)) in
   match r, k_expect k with
   | Ok st, EHist rows locked =>
       let (c, i) := rows_code (rev (y_hist st)) rows 0 in
